@@ -825,3 +825,223 @@ class TensorEagerSubsRename(Contract):
 
     def allow_vacuous(self, st):
         return False
+
+
+# ==================================================================================================
+# C01: indexing, stacking, concatenation, Lambda on Tensors
+# ==================================================================================================
+class GetOp:
+    def __init__(self, **d):
+        self.defaults = d
+
+
+@register
+class EagerGetitemTensorNumber(Contract):
+    """eager_getitem_tensor_number: x[..., n] at event position `offset` (n a Number in range): result.data[idx] ==
+    x.data[batch idx, event idx with n inserted at `offset`]; inputs unchanged -- the integer addresses the EVENT dimension
+    `offset`, after all batch dimensions. structure bound: batch rank <= 2, event rank 1..3, every offset."""
+
+    props = ("C01",)
+    file = "funsor/tensor.py"
+    qualname = "eager_getitem_tensor_number"
+    total = True
+    mutants = (("offset counted from the batch start", "index = [slice(None)] * (len(lhs.inputs) + offset)", "index = [slice(None)] * offset"),)
+
+    def structures(self, tier):
+        for b in (0, 1, 2):
+            for e in (1, 2, 3):
+                for off in range(e):
+                    yield "batch=%d,event=%d,offset=%d" % (b, e, off), (b, e, off)
+
+    def build(self, p, st):
+        b, e, off = st
+        x, bs, es = mk_tensor(p, tuple(NAMES[:b]), e)
+        n = p.fresh_int("n")
+        p.assume(And(0 <= n, n < es[off]))
+        return Ctx(args=(GetOp(offset=off), x, NumberM(n, es[off])), namespace=dict(TENSOR_NS, slice=slice, tuple=tuple), x=x, n=n, st=st, es=es, bs=bs, p=p)
+
+    def ensures(self, ctx, result):
+        b, e, off = ctx.st
+        if not isinstance(result, TensorM):
+            return [("returns_tensor", False)]
+        shape = tuple(ctx.x.data.shape[:b]) + tuple(s for k, s in enumerate(ctx.es) if k != off)
+        cl = [("inputs_unchanged", deep_eq(result.inputs, ctx.x.inputs)), ("shape", deep_eq(tuple(result.data.shape), shape))]
+        if len(result.data.shape) == len(shape):
+            idx = fresh_index(ctx.p, shape)
+            src = tuple(idx[:b]) + tuple(idx[b:b + off]) + (ctx.n,) + tuple(idx[b + off:])
+            cl.append(("reads_the_intended_event_dimension", Implies(in_range(idx, shape), result.data.get(idx) == ctx.x.data.get(src))))
+        return cl
+
+
+@register
+class EagerGetitemTensorVariable(Contract):
+    """eager_getitem_tensor_variable: x[..., v] with v a fresh Variable at event position `offset` turns that event dimension
+    into a new LAST input named v: result.data[batch idx, i, remaining event idx] == x.data[batch idx, event idx with i at
+    `offset`]. structure bound: batch rank <= 2, event rank 1..3, every offset."""
+
+    props = ("C01",)
+    file = "funsor/tensor.py"
+    qualname = "eager_getitem_tensor_variable"
+    total = True
+    mutants = (("source and target swapped", "        del perm[source_dim]\n        perm.insert(target_dim, source_dim)", "        del perm[target_dim]\n        perm.insert(source_dim, target_dim)"),)
+
+    structures = EagerGetitemTensorNumber.structures
+
+    def build(self, p, st):
+        b, e, off = st
+        x, bs, es = mk_tensor(p, tuple(NAMES[:b]), e)
+        from .c_terms import VariableM
+
+        v = VariableM("v", MDom(es[off], ()))
+        return Ctx(args=(GetOp(offset=off), x, v), namespace=dict(TENSOR_NS, list=list, range=range), x=x, st=st, es=es, bs=bs, p=p)
+
+    def ensures(self, ctx, result):
+        b, e, off = ctx.st
+        if not isinstance(result, TensorM):
+            return [("returns_tensor", False)]
+        names = list(NAMES[:b]) + ["v"]
+        shape = tuple(ctx.x.data.shape[:b]) + (ctx.es[off],) + tuple(s for k, s in enumerate(ctx.es) if k != off)
+        cl = [("new_input_appended_last", list(result.inputs) == names and deep_eq(result.inputs["v"].dtype, ctx.es[off])), ("shape", deep_eq(tuple(result.data.shape), shape))]
+        if len(result.data.shape) == len(shape):
+            idx = fresh_index(ctx.p, shape)
+            ev = list(idx[b + 1:])
+            ev.insert(off, idx[b])
+            cl.append(("event_dimension_becomes_the_named_input", Implies(in_range(idx, shape), result.data.get(idx) == ctx.x.data.get(tuple(idx[:b]) + tuple(ev)))))
+        return cl
+
+
+@register
+class EagerLambda(Contract):
+    """eager_lambda(var, expr): Lambda binds var and makes it the new LEADING event dimension:
+    result.data[batch idx (without var), i, event idx] == expr.data at var=i (or expr.data itself, broadcast, when expr does
+    not mention var); inputs = expr's inputs without var, order kept. structure bound: <= 3 inputs, event rank <= 1."""
+
+    props = ("C01",)
+    file = "funsor/tensor.py"
+    qualname = "eager_lambda"
+    total = True
+    mutants = (("new dim placed first", "data = data.reshape(shape[:dim] + (1,) + shape[dim:])\n        data = ops.expand(data, shape[:dim] + (var.dtype,) + shape[dim:])", "data = data.reshape((1,) + shape)\n        data = ops.expand(data, (var.dtype,) + shape)"),)
+
+    def structures(self, tier):
+        for n in (0, 1, 2, 3):
+            names = NAMES[:n]
+            for vpos in [None] + list(range(n)):
+                for e in (0, 1):
+                    yield "inputs=%s,var=%s,event=%d" % (names or "-", "absent" if vpos is None else names[vpos], e), (names, vpos, e)
+
+    def build(self, p, st):
+        names, vpos, e = st
+        x, bs, es = mk_tensor(p, tuple(names), e)
+        from .c_terms import VariableM
+
+        if vpos is None:
+            n = p.fresh_int("vs")
+            p.assume(n >= 1)
+            v = VariableM("v", MDom(n, ()))
+        else:
+            v = VariableM(names[vpos], x.inputs[names[vpos]])
+        v.dtype = v.output.dtype
+        x.dtype = "real"
+
+        def align_tensor_model(new_inputs, t, expand=False):
+            _, (arr,) = align_tensors_model(_Wrap(new_inputs), t)[0], [None]
+            return None
+
+        from . import c_tensor as me
+
+        loc = core.locate("funsor/tensor.py", "align_tensor")
+        at, _ = core.make_callable(loc, TENSOR_NS)  # align_tensor through its own (proved) body: same file, under contract
+        return Ctx(args=(v, x), namespace=dict(TENSOR_NS, align_tensor=at), x=x, v=v, st=st, bs=bs, es=es, p=p)
+
+    def ensures(self, ctx, result):
+        names, vpos, e = ctx.st
+        if not isinstance(result, TensorM):
+            return [("returns_tensor", False)]
+        kept = [n for k, n in enumerate(names) if k != vpos]
+        vsize = ctx.v.output.dtype
+        shape = tuple(ctx.bs[n] for n in kept) + (vsize,) + ctx.es
+        cl = [("inputs_without_the_bound_variable", list(result.inputs) == kept), ("shape", deep_eq(tuple(result.data.shape), shape))]
+        if len(result.data.shape) == len(shape):
+            idx = fresh_index(ctx.p, shape)
+            val = {n: idx[k] for k, n in enumerate(kept)}
+            if vpos is not None:
+                val[names[vpos]] = idx[len(kept)]
+            src = tuple(val[n] for n in names) + tuple(idx[len(kept) + 1:])
+            cl.append(("bound_variable_becomes_leading_event_dim", Implies(in_range(idx, shape), result.data.get(idx) == ctx.x.data.get(src))))
+        return cl
+
+
+class _Wrap:
+    def __init__(self, inputs):
+        self.inputs = inputs
+
+
+@register
+class EagerStackHomogeneous(Contract):
+    """eager_stack_homogeneous(name, *parts): result.inputs = name (size = number of parts) followed by the union of the
+    parts' inputs; result.data[k, batch idx, event idx] == part k at the same named point (parts lacking an input are
+    broadcast along it). structure bound: <= 3 parts over <= 2 names, event rank <= 1."""
+
+    props = ("C01",)
+    file = "funsor/tensor.py"
+    qualname = "eager_stack_homogeneous"
+    max_paths = 6000
+    mutants = (("parts stacked in reverse", "for part in parts]\n    )", "for part in reversed(parts)]\n    )"),)
+
+    def structures(self, tier):
+        pool = ["", "a", "b", "ab", "ba"]
+        for n in (1, 2, 3):
+            for ins in itertools.product(pool, repeat=n):
+                if tier == "quick" and n == 3 and len(set(ins)) > 2:
+                    continue
+                for e in (0, 1):
+                    yield "parts=%s,event=%d" % ([i or "-" for i in ins], e), (ins, e)
+
+    def build(self, p, st):
+        ins, e = st
+        es = tuple(sizes(p, e, "e"))
+        gs = {}
+        parts = []
+        for k, names in enumerate(ins):
+            bs = []
+            for nm in names:
+                if nm not in gs:
+                    s = p.fresh_int("g_" + nm)
+                    p.assume(s >= 1)
+                    gs[nm] = s
+                bs.append(gs[nm])
+            t = TensorM.__new__(TensorM)
+            t.inputs = OrderedDict((nm, MDom(gs[nm], ())) for nm in names)
+            t.output = MDom("real", es)
+            t.dtype = "real"
+            t.data = fresh_array(p, "part%d" % k, tuple(bs) + es)
+            parts.append(t)
+        loc = core.locate("funsor/tensor.py", "align_tensor")
+        at, _ = core.make_callable(loc, TENSOR_NS)
+        return Ctx(args=("s",) + tuple(parts), namespace=dict(TENSOR_NS, align_tensor=at, len=len), parts=parts, gs=gs, es=es, st=st, p=p)
+
+    def may_raise(self, ctx, etype):
+        return False
+
+    total = True
+
+    def ensures(self, ctx, result):
+        ins, e = ctx.st
+        if not isinstance(result, TensorM):
+            return [("returns_tensor", False)]
+        union = []
+        for names in ins:
+            for nm in names:
+                if nm not in union:
+                    union.append(nm)
+        shape = (len(ins),) + tuple(ctx.gs[n] for n in union) + ctx.es
+        cl = [("inputs_name_then_union", list(result.inputs) == ["s"] + union and deep_eq(result.inputs["s"].dtype, len(ins))), ("shape", deep_eq(tuple(result.data.shape), shape))]
+        if len(result.data.shape) == len(shape):
+            idx = fresh_index(ctx.p, shape)
+            vals = []
+            for t, names in zip(ctx.parts, ins):
+                vals.append(t.data.get(tuple(idx[1 + union.index(nm)] for nm in names) + tuple(idx[1 + len(union):])))
+            from .arrays import select
+
+            cl.append(("element_k_is_part_k_at_the_same_point", Implies(in_range(idx, shape), result.data.get(idx) == select(idx[0], vals))))
+        return cl
